@@ -320,7 +320,10 @@ class MultipartEncoder:
             self.state = State.DATA_START
             return data
         elif isinstance(event, Data) and self.state == State.DATA_START:
-            self.state = State.DATA
+            # The line break that starts the body is written with the first
+            # non-empty data, so stay in this state until then.
+            if len(event.data) > 0 or not event.more_data:
+                self.state = State.DATA
             if len(event.data) > 0:
                 return b"\r\n" + event.data
             else:
